@@ -294,6 +294,18 @@ def run_case(spec):
     if not any(same(fun, f) and same(maxcv, c) for f, c in pairs):
         out.fail("C03.e2e.triple", "(res.fun, res.maxcv)=(%r, %r) is not one of the run's evaluations" % (fun, maxcv))
         return out
+    # "the returned point is the best point evaluated": res.x must be the very point whose evaluation
+    # produced the returned pair (the history is in evaluation order, one entry per evaluated point)
+    pts = e2e.eval_points(b, t)
+    if len(pts) == len(pairs):
+        xr = np.asarray(r.x, float)
+        if not any(same(fun, f) and same(maxcv, c) and e2e.same(p_["x"], xr) for p_, (f, c) in zip(pts, pairs)):
+            where = [i for i, p_ in enumerate(pts) if e2e.same(p_["x"], xr)]
+            out.fail("C03.e2e.point", "res.x=%r is not the evaluated point that produced (res.fun, res.maxcv)=(%r, %r): "
+                     "it was evaluated at %r with %r" % (xr.tolist(), fun, maxcv, where, [pairs[i] for i in where][:3]),
+                     status=int(r.status))
+    else:
+        out.label("history-length-differs")
     acc = ref_select(pairs, pen, tol)
     if acc is None:
         out.label("permissive")
